@@ -32,6 +32,7 @@ fn main() {
 		"C03" => checks::c02::run(&args, "C03"),
 		"C04" => checks::c04::run(&args),
 		"C05" => checks::c05::run(&args),
+		"C06" => checks::c06::run(&args),
 		"C07" => checks::c07::run(&args),
 		"C09" => checks::c09::run(&args),
 		"C10" => checks::c10::run(&args),
